@@ -1,6 +1,6 @@
 ----------------------------- MODULE Codec_Trace -----------------------------
 (* Trace validation for C10.  One record per (kind, value class, conversion path): the driver executed the path
-   on every applicable message / struct class of the real code and reports, per step, the aggregated observation
+   on every applicable message / struct class of the real code and reports, per step, the SET of observations
      "ok"       every class: the conversion succeeded (and at an object state the bytes equal the original)
      "differs"  some class: bytes differ at an object state        "raised"  some class: the conversion raised
      "refused"  some class: InvalidMessageDefinition (version refusal) was raised
@@ -40,7 +40,7 @@ TNext ==
      THEN /\ Out([tid |-> Tr.tid, res |-> IF bad = {} THEN "ok" ELSE "fail", step |-> l - 1, props |-> bad])
           /\ st' = "done" /\ UNCHANGED <<vars, l, bad>>
      ELSE /\ Act(Tr.path[l])
-          /\ bad' = bad \cup {<<l, x>> : x \in StepClauses(Tr.path[l].a, rep', Tr.obs[l])}
+          /\ bad' = bad \cup {<<l, x>> : x \in UNION {StepClauses(Tr.path[l].a, rep', Tr.obs[l][j]) : j \in DOMAIN Tr.obs[l]}}
           /\ l' = l + 1 /\ UNCHANGED st
 
 TSpec == TInit /\ [][TNext]_tvars
